@@ -170,7 +170,20 @@ def rule_a(ctx):
                 if x.get("opcode") in ("<=", ">=") and " - 1" not in txt and "-1" not in txt.replace("(-1 ==", ""):
                     bad_bounds.append({"line": x.get("line"), "condition": txt})
                 break
-    ctx.check(not bad_bounds, rid, "c-scan-bound", "the table scan is bounded exclusively by the table length (%d loop condition(s) examined)" % nb, None, bad_bounds)
+    for lp in loops:
+        if lp.get("kind") != "ForStmt" or not lp.get("inner"):
+            continue
+        init = lp["inner"][0]
+        cands = []
+        if isinstance(init, dict) and init.get("kind") == "BinaryOperator" and init.get("opcode") == "=":
+            cands.append(init["inner"][1])
+        if isinstance(init, dict) and init.get("kind") == "DeclStmt":
+            cands += [v["inner"][-1] for v in init.get("inner", []) if v.get("kind") == "VarDecl" and v.get("inner")]
+        for cnd in cands:
+            iv = cpaths.int_of(cnd)
+            if iv is not None and iv != 0:
+                bad_bounds.append({"line": cnd.get("line"), "start": iv, "why": "the scan skips the first row(s) of the table"})
+    ctx.check(not bad_bounds, rid, "c-scan-bound", "the table scan starts at the first row and is bounded exclusively by the table length (%d loop condition(s) examined)" % nb, None, bad_bounds)
     ctx.check(bool(rowres), rid, "c-returns-translated", "the matched row's translated code is returned", None, [r[1] for r in res])
     unk = [r for r in res if r[2] is not None and unknown and r[2] == unknown[0] and not [a for a, p in r[0] if p]]
     ctx.check(len(unknown) == 1 and bool(unk), rid, "fallthrough-unknown", "when no row matches the result is the Unknown discriminant (%s)" % unknown, None,
